@@ -146,6 +146,56 @@ class _Subst(ast.NodeTransformer):
     visit_SetComp = visit_DictComp = visit_GeneratorExp = visit_ListComp
 
 
+class _Fold(ast.NodeTransformer):
+    """(a, b)[0] -> a;  (a, b)[0 if c else 1] -> a if c else b;  constant integer arithmetic in the index."""
+
+    def _const(self, e: ast.AST):
+        if isinstance(e, ast.Constant) and isinstance(e.value, int) and not isinstance(e.value, bool):
+            return e.value
+        if isinstance(e, ast.UnaryOp) and isinstance(e.op, ast.USub):
+            v = self._const(e.operand)
+            return None if v is None else -v
+        if isinstance(e, ast.BinOp) and isinstance(e.op, (ast.Add, ast.Sub)):
+            l, r = self._const(e.left), self._const(e.right)
+            if l is not None and r is not None:
+                return l + r if isinstance(e.op, ast.Add) else l - r
+        return None
+
+    def _index(self, ix: ast.AST):
+        """index expression -> int | ('if', test, int, int) | None"""
+        c = self._const(ix)
+        if c is not None:
+            return c
+        if isinstance(ix, ast.IfExp):
+            a, b = self._const(ix.body), self._const(ix.orelse)
+            if a is not None and b is not None:
+                return ("if", ix.test, a, b)
+        if isinstance(ix, ast.BinOp) and isinstance(ix.op, (ast.Add, ast.Sub)):
+            l, r = self._index(ix.left), self._index(ix.right)
+            if isinstance(l, int) and isinstance(r, tuple):
+                f = (lambda v: l + v) if isinstance(ix.op, ast.Add) else (lambda v: l - v)
+                return ("if", r[1], f(r[2]), f(r[3]))
+            if isinstance(r, int) and isinstance(l, tuple):
+                f = (lambda v: v + r) if isinstance(ix.op, ast.Add) else (lambda v: v - r)
+                return ("if", l[1], f(l[2]), f(l[3]))
+        return None
+
+    def visit_Subscript(self, node: ast.Subscript):
+        self.generic_visit(node)
+        if isinstance(node.value, (ast.Tuple, ast.List)) and not any(isinstance(e, ast.Starred) for e in node.value.elts) and isinstance(node.ctx, ast.Load):
+            n = len(node.value.elts)
+            ix = self._index(node.slice)
+            if isinstance(ix, int) and -n <= ix < n:
+                return node.value.elts[ix]
+            if isinstance(ix, tuple) and all(-n <= v < n for v in ix[2:]):
+                return ast.IfExp(test=ix[1], body=node.value.elts[ix[2]], orelse=node.value.elts[ix[3]])
+        return node
+
+
+def fold(e: ast.AST) -> ast.AST:
+    return ast.fix_missing_locations(_Fold().visit(e))
+
+
 def resolved_text(cfg: CFG, expr: ast.AST, at: int | None = None, depth: int = 6) -> str:
     """ast.unparse of expr after substituting every local name that has exactly one reaching plain
     definition by that definition (recursively).  Names with several definitions and parameters
@@ -155,4 +205,4 @@ def resolved_text(cfg: CFG, expr: ast.AST, at: int | None = None, depth: int = 6
     if at is None:
         at = cfg.node_of(expr)
     e = _Subst(cfg, at, depth).visit(copy.deepcopy(expr))
-    return ast.unparse(ast.fix_missing_locations(e))
+    return ast.unparse(fold(ast.fix_missing_locations(e)))
